@@ -9,6 +9,7 @@ directories is a violation; (3) fault enumeration: the k-th filesystem call made
 with ENOENT/EACCES/EIO/EISDIR - the answer must stay a non-breaking 403/404 (an overlapping second
 static application is still consulted), never a 500 or an escaping exception; (4) conditional requests."""
 import os
+import mimetypes
 import zlib
 import sys
 import errno
@@ -38,7 +39,7 @@ ASSUMPTIONS = ['faults are injected into filesystem calls made until the applica
                'a contained but non-canonical path (".", inner "..", repeated slashes) may be served or refused; if served it must be the mapped file']
 # which filesystem calls the implementation makes is its own business: only "some fault was injected" is required,
 # the per-call counters (fault:open, fault:getmtime, ...) are reported in the evidence
-REQUIRED_REACH = ['served-and-compared', 'canonical-file-served', 'escape:dotdot-refused', 'escape:absolute-refused',
+REQUIRED_REACH = ['content-type-compared-with-the-guess', 'served-with-client-caching-off', 'served-and-compared', 'canonical-file-served', 'escape:dotdot-refused', 'escape:absolute-refused',
                   'escape:secret-path-pieces-refused', 'noncanonical-contained', 'fault-injected', 'fault-on-every-call-about-one-file', 'clean-request-after-fault', 'clean-request-after-fault:name-in-two-search-paths', 'fallthrough-to-second-app', '304-observed', 'first-search-path-wins',
                   'audit-opens-seen', 'root-spelled:trailing-slash', 'root-spelled:dot-segment', 'root-spelled:dotdot-detour', 'root-spelled:double-slash',
                   'root-spelled:relative', 'names-that-normalisation-would-rewrite', 'conditional-on-directory', 'conditional-on-missing', 'mode:redirect', 'mode:rewrite', 'mode:strict']
@@ -120,7 +121,10 @@ class Tree(object):
                           ('NOTICE', ('sized-text', 4097)), ('data/dump', ('sized-binary', 70000)), ('data/K', ('sized-text', 1024)),
                           ('data/K1', ('sized-text', 1025)),
                           ('release..notes.txt', 'text'), ('v1..2/readme.txt', 'text'), ('sub/..settings', 'text'), ('sub/.../deep.bin', 'binary'),
-                          ('sub/trailing..', 'text'), ('a..', 'text'), ('...', 'text')]:
+                          ('sub/trailing..', 'text'), ('a..', 'text'), ('...', 'text'),
+                          # several extensions: the type is guessed from the whole name (the last one is only an encoding)
+                          ('arch/backup.tar.gz', 'binary'), ('arch/notes.txt.gz', 'binary'), ('arch/blob.gz', 'binary'), ('arch/page.html.bz2', 'binary'),
+                          ('arch/data.json.xz', 'binary'), ('arch/x.tar.bz2', 'binary'), ('arch/style.css.gz', 'binary'), ('arch/plain.gz.txt', 'text')]:
             put(os.path.join(self.root1, rel), kind)
         # files written just now, and one whose clock is ahead: their Last-Modified is as good as any other
         import time as _time
@@ -193,10 +197,18 @@ def spell(root, how):
 
 
 class Config(object):
-    def __init__(self, tree, roots, prefix, mode, two_apps=False, spelling='plain'):
-        from clastic import Application, StaticApplication
+    def __init__(self, tree, roots, prefix, mode, two_apps=False, spelling='plain', cache='default'):
+        from clastic import Application
+        from clastic import StaticApplication as _SA
         self.tree, self.roots, self.prefix, self.mode, self.two_apps = tree, roots, prefix, mode, two_apps
-        self.spelling, self.light = spelling, spelling != 'plain'
+        self.spelling, self.light = spelling, (spelling != 'plain' or cache != 'default')
+        # client caching: the default, switched off (0 / None: files are still served as faithfully, dated as they are;
+        # only the conditional-request clause is about caching), or another period
+        self.cache = cache
+        self.caching = cache == 'default' or bool(cache)
+
+        def StaticApplication(sp):
+            return _SA(sp) if cache == 'default' else _SA(sp, cache_timeout=cache)
         given = [spell(r, spelling) for r in roots]
         if two_apps:
             entries = [(prefix, StaticApplication(given[0])), (prefix, StaticApplication(given[1]))]
@@ -205,14 +217,15 @@ class Config(object):
         self.app = Application(entries, slash_mode=mode)
         self.served = rel_files(tree, roots)
         self.label = '%d-root%s %s %s%s' % (len(roots), '-2apps' if two_apps else '', prefix, mode,
-                                            '' if spelling == 'plain' else ' root-spelled:' + spelling)
+                                            '' if spelling == 'plain' else ' root-spelled:' + spelling) + \
+            ('' if cache == 'default' else ' cache_timeout=%r' % (cache,))
 
     def raw_path(self, segs):
         return self.prefix.rstrip('/') + '/' + '/'.join(segs)
 
     def desc(self):
         return {'roots': len(self.roots), 'root_order': [1 if r == self.tree.root1 else 2 for r in self.roots], 'two_apps': self.two_apps,
-                'prefix': self.prefix, 'mode': self.mode, 'spelling': self.spelling}
+                'prefix': self.prefix, 'mode': self.mode, 'spelling': self.spelling, 'cache': self.cache}
 
 
 def serve(cfg, segs, headers=None, method='GET', faults=None):
@@ -295,7 +308,13 @@ def judge(sh, cfg, segs, record=None, faulted=False):
             bad('last-modified-missing', 'no Last-Modified')
         elif not ct:
             bad('content-type-missing', 'no Content-Type')
+        elif mimetypes.guess_type(path)[0] and ct.split(';')[0].strip().lower() != mimetypes.guess_type(path)[0]:
+            # "a guessed Content-Type": where the name tells the type (the standard table knows it), that is the guess -
+            # for this file, whatever was served before it
+            bad('content-type-not-the-guess', 'Content-Type %r, the name says %s' % (ct, mimetypes.guess_type(path)[0]))
         else:
+            if mimetypes.guess_type(path)[0]:
+                sh.hit('content-type-compared-with-the-guess')
             try:
                 served_time = parsedate_to_datetime(lm).replace(tzinfo=None)
                 real = datetime.datetime.utcfromtimestamp(int(os.path.getmtime(path)))
@@ -333,6 +352,9 @@ def judge_conditional(sh, cfg, segs):
     if any(unicodedata.normalize(f, x) != x for x in segs for f in ('NFC', 'NFKC')) and ex.status == 200:
         sh.hit('names-that-normalisation-would-rewrite')
     if ex.status != 200 or ex.exc is not None:
+        return
+    if not cfg.caching:
+        sh.hit('served-with-client-caching-off')
         return
     lm = ex.header('Last-Modified')
     when = parsedate_to_datetime(lm)
@@ -553,6 +575,9 @@ def configs(tree):
     out.append(Config(tree, [tree.root1, tree.root2], '/s', 'redirect', spelling='dotdot-detour'))
     out.append(Config(tree, [tree.root2, tree.root1], '/d/', 'strict', spelling='double-slash'))
     out.append(Config(tree, [tree.root1], '/rel/', 'redirect', spelling='relative'))
+    out.append(Config(tree, [tree.root1], '/nc0/', 'redirect', cache=0))
+    out.append(Config(tree, [tree.root2, tree.root1], '/ncn', 'rewrite', cache=None))
+    out.append(Config(tree, [tree.root1], '/c60/', 'strict', cache=60))
     return out
 
 
@@ -655,7 +680,7 @@ def replay(sh, case, spec):
         roots = [tree.root1] if case['roots'] == 1 else [tree.root1, tree.root2]
         if case.get('root_order'):
             roots = [tree.root1 if k == 1 else tree.root2 for k in case['root_order']]
-        cfg = Config(tree, roots, case['prefix'], case['mode'], two_apps=case.get('two_apps', False), spelling=case.get('spelling', 'plain'))
+        cfg = Config(tree, roots, case['prefix'], case['mode'], two_apps=case.get('two_apps', False), spelling=case.get('spelling', 'plain'), cache=case.get('cache', 'default'))
         if case.get('fault'):
             faults = Faults()
             judge_faults(sh, cfg, case['segs'], faults, headers=case.get('headers'))
